@@ -218,6 +218,8 @@ def trees(max_leaves):
         # parenthesised single operands, plain and negated, around plain and negated operands ("not (not b)"): a group with one
         # member is still a group
         singles = [a for a in by_n[1] if a[0] == "id" and a[2] in ("a", "b")] + CDS_REPRESENTATIVES[:2]
+        # (and a group around a group around the operand: "not ((not b))")
+        singles = singles + [["or", False, [a]] for a in singles[:4]]
         for inner in singles:
             for neg in (False, True):
                 group = ["or", neg, [inner]]
